@@ -467,6 +467,10 @@ const prelude = `(declare-sort Str 0)
 (assert (= (sx.len sx.empty) #x0000000000000000))
 `
 
+// foldAxiom: strings.EqualFold is equality of the lower-cased strings (holds for ASCII; the
+// stated precondition of C17). Emitted (as a quantified assumption) when sx.fold is used.
+const foldAxiom = "(assert (forall ((a Str) (b Str)) (! (= (sx.fold a b) (= (sx.lower a) (sx.lower b))) :pattern ((sx.fold a b)))))\n"
+
 func symbolsOf(s string, out map[string]bool) {
 	i := 0
 	for i < len(s) {
@@ -576,6 +580,9 @@ func (c *Ctx) query(o *Obligation, withModel bool, dropQuant bool) string {
 	}
 	b.WriteString("(set-logic ALL)\n")
 	b.WriteString(prelude)
+	if rel["sx.fold"] && !dropQuant {
+		b.WriteString(foldAxiom)
+	}
 	if rel["sx.emptyobj"] {
 		b.WriteString("(declare-const sx.emptyobj (Array (_ BitVec 64) Str))\n")
 		if !dropQuant {
